@@ -373,6 +373,7 @@ func (c17) Gen(rng *rand.Rand, tier string, emit func(string)) {
 	}
 	emit(fmt.Sprintf("cmd obiconvert pipe gz:fastq nrec=300 cut=%d", len(c17Compress("gz", c17FormatData("fastq", 300)))-2))
 	c17GenMulti(rng, tier, emit)
+	c17GenEco(rng, tier, emit)
 	n := 520
 	if tier == "thorough" {
 		n = 4000
@@ -724,20 +725,24 @@ func c17File(f []string) (string, []Fail) {
 
 func c17Cmd(f []string) (string, []Fail) {
 	// cmd obiconvert file|stdin <codec> nrec=N cut=K
-	codec, _, z, label, ok := c17Damage([]string{"file", f[3], f[4], f[5]})
+	sp, _, _, z, label, ok := c17DamageX([]string{"file", f[3], f[4], f[5]})
 	if !ok || f[1] != "obiconvert" {
 		return "bad-op", nil
 	}
+	codec := sp.codec
 	bin, err := repoCommandC17("obiconvert")
 	if err != nil {
 		return "bad-op", []Fail{{Sig: "cmd.build", Text: err.Error()}}
 	}
 	dir, _ := os.MkdirTemp("", "c17")
 	defer os.RemoveAll(dir)
-	path := filepath.Join(dir, "t.fasta."+codec)
+	path := filepath.Join(dir, "t."+sp.format+"."+codec)
 	os.WriteFile(path, z, 0o644)
 	var cmd *exec.Cmd
-	if f[2] == "stdin" {
+	if f[2] == "ecopcr" {
+		// obiconvert --ecopcr <file>: ReadEcoPCRFromFile
+		cmd = exec.Command(bin, "--ecopcr", path)
+	} else if f[2] == "stdin" {
 		cmd = exec.Command(bin)
 		in, _ := os.Open(path)
 		defer in.Close()
@@ -763,13 +768,17 @@ func c17Cmd(f []string) (string, []Fail) {
 		} else {
 			res = "exit-nonzero"
 		}
-	case <-time.After(60 * time.Second):
+	case <-time.After(c17CmdTimeout(f[2])):
 		cmd.Process.Kill()
 		res = "hang"
 	}
 	stat("subprocess:" + f[2])
 	var fails []Fail
-	if res != "exit-nonzero" {
+	if f[5] == "none" {
+		if res != "exit0" {
+			fails = append(fails, Fail{Sig: "cmd." + f[2] + "." + codec + ".complete-file", Text: "obiconvert on a complete " + codec + " input ended with " + res})
+		}
+	} else if res != "exit-nonzero" {
 		fails = append(fails, Fail{Sig: "cmd." + f[2] + "." + codec, Text: "obiconvert on a truncated " + codec + " input (" + label + ") ended with " + res})
 	}
 	return res, fails
